@@ -170,7 +170,7 @@ static void harness(void) {
   for (u64 i = 0; i < C17_MAXPRE; ++i) if (i < c17_npre) CHECK(o[2 + i] == c17_pre[i], "previous content of the string preserved across reallocation");
   for (u64 i = 0; i < NG; ++i) if (i < na) CHECK(o[2 + c17_npre + i] == all[i], "appended bytes are the matched bytes");
   OBS(o[1]); OBS(o[2 + 27]);
-  REACH(na == NG && c17_npre == 3 && o[1] == NG + 3, "27-byte result (beyond the 15-byte short-string capacity)");
+  REACH(na == NG && o[1] == NG + c17_npre, "longest match appended (result beyond the 15-byte short-string capacity)");
   REACH(c17_npre + na == 16, "first length that needs the heap");
   REACH(c17_npre + na == 15, "last length that fits the short-string buffer");
 }
